@@ -138,6 +138,9 @@ func newPairSpace(tier string) *pairSpace {
 		ps.addGroup("full-alphabet-depth1", u.Leaves(true), 1, seen)
 		ps.addGroup("tiny-alphabet-depth2", tiny, 2, seen)
 	}
+	// types that goverter must spell out correctly; paired among themselves (and with int / a named key, so that
+	// maps with converted keys force a make() of the exotic value type)
+	ps.addGroup("exotic-alphabet-depth1", append(u.ExoticLeaves(), space.B("int"), space.N(u.Get("in", "MyInt")), space.N(u.Get("out", "MyInt"))), 1, seen)
 	return ps
 }
 
